@@ -30,7 +30,7 @@ ASSUMPTIONS = ["ambiguous encodings (bool, integral floats for Discrete) are not
                "Discrete = Python int or numpy integer in [0, n)"]
 REQUIRED = ["C17:continue-after-rejection", "C17:malformed-rejected-in-time", "C17:no-effect-on-reject", "C17:malformed-never-executed", "C17:allocation-denoted",
             "C17:target-reached", "C17:residual-in-cash"]
-REQUIRED_CATS = ["subclass-overrides-contains", "bad:B:subclass:over-budget", "box-open-on-one-side", "bad:B:open-high:below", "bad:B:open:nan", "bounds-exclude-zero", "fit-transformers", "per-contract-bounds", "second-episode", "box", "discrete", "with-cash", "nr-contracts", "delay:1", "delay:2"]
+REQUIRED_CATS = ["action-container-reused:list", "action-container-reused:series", "action-container-reused:ndarray", "subclass-overrides-contains", "bad:B:subclass:over-budget", "box-open-on-one-side", "bad:B:open-high:below", "bad:B:open:nan", "bounds-exclude-zero", "fit-transformers", "per-contract-bounds", "second-episode", "box", "discrete", "with-cash", "nr-contracts", "delay:1", "delay:2"]
 REQUIRED_HITS = ["Broker.transact", "Broker.rebalance"]
 TECHNIQUE = "runtime monitoring with fault injection: malformed actions injected into episodes; Broker.transact hook proves nothing executed"
 LEVEL_TEXT = ("Fault enumeration over the kinds of malformed action x space type x delay, each injected at a random step of a real "
@@ -262,6 +262,36 @@ def case(ctx, i, tier):
                       want={c.symbol: v for c, v in want.items()})
             k2 += 1
         ctx.cat("second-episode")
+    # an episode in which the caller keeps ONE mutable container for its actions (a list, a pandas Series, an array)
+    # and overwrites it in place before every call: what is executed d steps later is what the container held when
+    # it was submitted
+    if not disc and d >= 1 and type(sp_) is BoxPortfolio:
+        import pandas as pd
+        kind = rng.choice(["list", "series", "ndarray"])
+        with ep.EpMonitor(sink) as mon4:
+            del sink.log[:]
+            env.reset()
+            first = valid()
+            buf = list(first) if kind == "list" else pd.Series(first) if kind == "series" else np.array(first)
+            hist = []
+            done = False
+            k4 = 0
+            while not done and k4 < 4:
+                v = valid()
+                for j in range(m):
+                    if kind == "series":
+                        buf.iloc[j] = v[j]
+                    else:
+                        buf[j] = v[j]
+                hist.append([float(x) for x in v])
+                o, r, done, info = env.step(buf)
+                src = hist[k4 - d] if k4 - d >= 0 else None
+                al = dict(info["_rebalancing"].allocation)
+                want = {} if src is None else {c: w for c, w in zip(contracts, src) if not isinstance(c, Cash) and w != 0}
+                ctx.check("C17:allocation-denoted", al == want, episode="reused-" + kind, step=k4, delay=d,
+                          got={c.symbol: v_ for c, v_ in al.items()}, want={c.symbol: v_ for c, v_ in want.items()})
+                k4 += 1
+        ctx.cat("action-container-reused:" + kind)
     # a third episode in which the caller CATCHES the rejection and carries on: a reference FIFO of
     # d pending actions says what is due at every call; the malformed action, when due, is rejected
     # without effect and nothing else is lost, duplicated or reordered
